@@ -46,6 +46,10 @@ type Engine struct {
 	mu      sync.Mutex
 	CPUms   int64
 	started time.Time
+	// Nondet: projects whose output varies between fresh processes under one schedule
+	Nondet map[string]*NondetInfo
+	arbMu  sync.Mutex
+	arbSeq int
 }
 
 func run(dir string, env []string, name string, args ...string) (string, error) {
@@ -188,6 +192,10 @@ func (e *Engine) call(w *wproc, j *Job) *Reply {
 			broken("worker died on job %s of project %s: %v\n%s", j.Op, j.Proj.ID, x.err, tail(w.err.String(), 4000))
 		}
 		if x.r.Err != "" {
+			if strings.HasPrefix(x.r.Err, "R3") && j.Op != "first" && e.arbitrate(j.Proj, x.r.Err) {
+				// the worker may hold half-loaded state of this project: forget it
+				return &Reply{Nondet: true, Complete: true, Seen: []Seen{{Hash: "nondeterministic", N: 1, Text: "(output varies from run to run)"}}}
+			}
 			broken("%s", x.r.Err)
 		}
 		e.mu.Lock()
@@ -207,6 +215,57 @@ func tail(s string, n int) string {
 		return "..." + s[len(s)-n:]
 	}
 	return s
+}
+
+// NondetInfo: two observations of the default schedule made by two fresh processes.
+type NondetInfo struct {
+	Proj   *Project
+	A, B   string
+	Runs   int
+	Reason string
+}
+
+// arbitrate is called when a worker reports that the same schedule gave two different
+// observations (R3). That is either the compiler under test (its output depends on something
+// the scheduler does not own: map iteration at a site that is not hooked, addresses, time) or
+// state that leaks from one execution to the next inside a worker process - which a user,
+// who starts a fresh process per compilation, never sees. Eight fresh processes each run the
+// default schedule once: if their observations differ the project is recorded as
+// nondeterministic (a C14 violation, reported by the check); if they all agree it is the
+// harness, and the caller aborts with exit 2.
+func (e *Engine) arbitrate(p *Project, reason string) bool {
+	e.arbMu.Lock()
+	defer e.arbMu.Unlock()
+	if e.Nondet == nil {
+		e.Nondet = map[string]*NondetInfo{}
+	}
+	if _, ok := e.Nondet[p.ID]; ok {
+		return true
+	}
+	var first string
+	for i := 0; i < 8; i++ {
+		e.mu.Lock()
+		e.arbSeq++
+		n := 1000 + e.arbSeq
+		e.mu.Unlock()
+		w := e.spawn(e.Bin, n, []string{"GOMAXPROCS=1"})
+		r := e.call(w, &Job{Op: "first", Proj: p})
+		w.in.Close()
+		w.cmd.Process.Kill()
+		w.cmd.Wait()
+		if len(r.Seen) == 0 {
+			return false
+		}
+		if i == 0 {
+			first = r.Seen[0].Text
+			continue
+		}
+		if r.Seen[0].Text != first {
+			e.Nondet[p.ID] = &NondetInfo{Proj: p, A: first, B: r.Seen[0].Text, Runs: i + 1, Reason: reason}
+			return true
+		}
+	}
+	return false
 }
 
 // Do runs one job on a free worker.
@@ -250,6 +309,7 @@ type ProjResult struct {
 	Goroutines int
 	Obs        map[string]*ObsInfo
 	CPUms      int64
+	Nondet     bool // see Engine.Nondet
 	mu         sync.Mutex
 }
 
@@ -326,6 +386,7 @@ func (e *Engine) Explore(tasks []Task, deadline time.Time) []*ProjResult {
 		t := tasks[i]
 		r := e.Do(&Job{Op: "root", Proj: t.Proj})
 		p := &ProjResult{Task: t, Complete: true, Obs: map[string]*ObsInfo{}}
+		p.Nondet = r.Nondet
 		p.RootSig, p.RootPoints, p.RootSteps, p.Goroutines, p.RootMap = r.RootSig, len(r.RootN), r.RootSteps, r.Gor, r.RootMap
 		p.RootHash = r.Seen[0].Hash
 		p.merge(r)
